@@ -48,7 +48,9 @@ _TRUSTED = [
     "(from mString into the mLength member / the padding before it) is visible only to UBSan's array-bounds check of "
     "mString[ idx], not inside memcmp/memcpy) on every invocation",
     "libc memcpy/memmove/memset/memcmp/strlen/strchr as modelled by the checked primitives (Mem.read/write/move, fill, "
-    "cstrlen); vsnprintf modelled as 'writes min(n, size-1) bytes and a NUL, returns n'",
+    "cstrlen); vsnprintf modelled as 'writes min(n, size-1) bytes and a NUL, returns n', and for a failing conversion (%ls / "
+    "%lc with a wide character above 0x7f in the C locale) as glibc 2.36 does it: 'writes the output of the directives before the failing one, "
+    "cut at size-1, and a NUL, returns -1' (the theorem C10_sprintf_any_result does not depend on this: any bytes, any result)",
     "Model/StdString.lean (textbook definitions over List Byte) as the meaning of 'what std::string does'; compared with "
     "libstdc++'s std::string on every generated operation",
 ]
@@ -351,6 +353,94 @@ def it_sim(n, rev, start, moves):
     return i
 
 
+# ---- sprintf with a formatter that can fail (added after seeded defect C10-4) ---------------------------
+# `sprintf_w <a> <kind> <wide> <v> <b>`: kind ls = "%s%ls%lu%s", lsp<prec> = "<%s>%.*ls=%lu;%s", lc = "%s%lc%lu%s"; <wide> = `-`
+# or code points in hex joined by `.`.  The harness runs in the "C" locale: every wide character above 0x7f makes the
+# conversion - and with it vsnprintf() - fail (result -1) after the output of the directives before it.
+WIDE_OK = [0x41, 0x62, 0x78, 0x7a, 0x20, 0x7e, 0x7f, 0x01]
+WIDE_BAD = [0x80, 0xe9, 0xff, 0x100, 0x20ac, 0xd800, 0xffff, 0x10000, 0x10ffff, 0x110000, 0x7fffffff]
+SPRINTF_V = ["0", "7", "12345", "4294967295", "18446744073709551615"]
+
+
+def ctok(rng, n, alpha=b"abcdefgh"):
+    """C string argument of n characters (compact notation beyond 40)"""
+    if n <= 0:
+        return "c:-"
+    if n <= 40:
+        return "c:" + hx(rnd_bytes(rng, n, alpha))
+    head = rnd_bytes(rng, rng.randint(1, 5), alpha)
+    return "c:%s+%sx%d" % (hx(head), hx(rnd_bytes(rng, rng.choice([1, 2, 3, 7]), alpha)), n - len(head))
+
+
+def wtok(ws):
+    return ".".join("%x" % w for w in ws) or "-"
+
+
+def sprintf_w(rng, L, fail, kind=None, plen=None):
+    """one `sprintf_w` line whose formatter fails (fail = True) or succeeds (False).  The length of the text in front
+    of the wide conversion (`plen`) decides where the formatter's own NUL lands: 0, inside, at or behind the capacity."""
+    kind = kind or rng.choice(["ls", "ls", "lc", "lsp"])
+    if plen is None:
+        plen = max(0, rng.choice([0, 0, 1, 2, 3, L - 2, L - 1, L, L + 1, L // 2, rng.randint(0, min(L + 2, 24))] +
+                                 ([L + 300, 2 * L + 1] if L <= 300 else [])))
+    if kind == "lsp":
+        plen = max(0, plen - 1)          # the format starts with `<`
+    a = ctok(rng, plen)
+    b = ctok(rng, rng.choice([0, 1, 2, 3, 5, 9]), b"uvwxyz")
+    v = rng.choice(SPRINTF_V)
+    ok = lambda n: [rng.choice(WIDE_OK) for _ in range(n)]
+    if kind == "lc":
+        return "sprintf_w %s lc %x %s %s" % (a, rng.choice(WIDE_BAD if fail else WIDE_OK), v, b)
+    j = rng.choice([0, 0, 1, 2, 3, 7])           # characters in front of the unconvertible one
+    tail = ok(rng.choice([0, 0, 1, 2, 5]))
+    if kind == "ls":
+        ws = ok(j) + ([rng.choice(WIDE_BAD)] if fail else []) + tail
+        return "sprintf_w %s ls %s %s %s" % (a, wtok(ws), v, b)
+    # %.*ls: at most `prec` bytes are converted; an unconvertible character at index j fails iff prec > j
+    bad = fail or rng.random() < 0.7             # a successful call may have a bad character behind the precision
+    ws = ok(j) + ([rng.choice(WIDE_BAD)] if bad else []) + tail
+    if fail:
+        prec = rng.choice([j + 1, j + 1, j + 2, len(ws), len(ws) + 1, 255, 256, 65536, 70000])
+    elif bad:
+        prec = rng.choice([0, j, j, max(0, j - 1)])
+    else:
+        prec = rng.choice([0, 1, len(ws), len(ws) + 1, 300])
+    return "sprintf_w %s lsp%d %s %s %s" % (a, prec, wtok(ws), v, b)
+
+
+def sprintf_cases(rng, full):
+    """directed batch: every capacity x {fresh, short content, full} x {%ls, %.*ls, %lc} x failing / succeeding formatter x
+    text in front of the conversion of length 0, 1, L-1, L, L+1, (L+300), each failing call followed by operations that
+    show what later calls make of the state (append / push_back are ignored when the string believes it is full)."""
+    cases = []
+    caps = [1, 2, 3, 4, 5, 7, 8, 15, 16, 254, 255, 256, 257, 65535, 65536] + ([65534] if full else [])
+    for L in caps:
+        big = L > 300
+        plens = [0, L, L + 1] if big and not full else [0, 1, L - 1, L, L + 1] + ([L + 300] if not big else [])
+        plens = sorted(set(max(0, x) for x in plens))
+        for state in ("fresh", "short", "full"):
+            lines = ["new %d" % L]
+            if state == "short":
+                fill = ["assign_s s:" + hx(rnd_bytes(rng, min(L, rng.choice([1, 2, 3])), b"mnopq"))]
+            elif state == "full":
+                fill = ["assign_s s:6d"] + (["append_cc @rem 6e"] if L > 1 else [])
+            else:
+                fill = ["clear"]
+            for kind in ("ls", "lsp", "lc"):
+                for plen in plens:
+                    for fail in (True, False):
+                        if big and not full and not fail and rng.random() < 0.5:
+                            continue
+                        lines += fill
+                        lines.append(sprintf_w(rng, L, fail, kind, plen))
+                        if fail:
+                            lines += rng.sample(["length", "empty", "append_p c:7171", "push_back 21", "add_c 3f",
+                                                 "insert_icc 0 1 2a", "sprintf c:7a7a", "append_cc @rem 2b", "swap t"] +
+                                                ([] if big else ["c_str", "str", "iter_fwd", "cmp_s s:-"]), 3)
+            cases.append(Case("f%d.%s" % (L, state), lines))
+    return cases
+
+
 def gen_op(rng, L, hostile, noscan=False):
     """one random operation line; `noscan`: no operation whose *model* walks the whole content index by index
     (the list-based model is quadratic there; contents of 64 k characters are exercised by the mutators)"""
@@ -422,6 +512,9 @@ def gen_op1(rng, L, hostile):
             lambda: "add_c %s" % CH(),
             lambda: "sprintf %s" % Cs(),
             lambda: "sprintf2 %s %d" % (Cs(), rng.choice([0, 7, 12345, 4294967295])),
+            lambda: sprintf_w(rng, L, True),
+            lambda: sprintf_w(rng, L, True),
+            lambda: sprintf_w(rng, L, False),
             lambda: "swap t",
             lambda: "assign_p %s" % Cs(),
             lambda: "assign_s %s" % S(),
@@ -556,8 +649,10 @@ def random_case(rng, cid, hostile):
     # the content is known here: search / compare arguments that stick out behind its end (see overhang_needles)
     if len(X) >= 1 and 0 not in X.slice(0, 16).bytes() and rng.random() < 0.6:
         lines += overhang_probe(rng, L, X)
-    for _ in range(rng.randint(3, 14)):
-        lines.append(gen_op(rng, L, hostile, noscan))
+    nops = rng.randint(3, 14)
+    failing = rng.randrange(nops) if rng.random() < 0.12 else -1      # a formatter that fails, somewhere in the history
+    for k in range(nops):
+        lines.append(sprintf_w(rng, L, True) if k == failing else gen_op(rng, L, hostile, noscan))
     return Case(cid, lines)
 
 
@@ -650,6 +745,8 @@ def exhaustive_cases(maxL, depth):
                 mut("append_s s:" + h); mut("append_p c:" + h); mut("append_f t"); mut("append_f u")
                 mut("add_s s:" + h); mut("add_p c:" + h); mut("add_f t"); mut("add_f u")
                 mut("sprintf c:" + h); mut("sprintf2 c:%s 7" % h)
+                for wk in ("ls 78.20ac", "ls 20ac", "ls 78", "ls -", "lc e9", "lc 79", "lsp1 78.20ac", "lsp2 78.20ac", "lsp0 100"):
+                    mut("sprintf_w c:%s %s 7 c:%s" % (h, wk, h)); lines += ["append_p c:71", "push_back 72"]
                 lines.append(reset); lines.append("tset s:" + h); lines.append("swap t")
                 for a, b in itertools.product(["0", "1", "2", "end"], repeat=2):
                     if b == "end" or (a != "end" and int(a) <= int(b)):
@@ -1176,6 +1273,9 @@ def generate(prop, tier, seed, scale=1):
     wrng = random.Random("%s-%s-width" % (prop, seed))
     yield "width boundaries of the length type (argument lengths, counts and positions around 2^8 / 2^16 / 2^64)", \
         width_cases(wrng, tier != "quick")
+    frng = random.Random("%s-%s-sprintf" % (prop, seed))
+    yield "sprintf with %ls / %.*ls / %lc arguments that are (not) representable in the C locale: failing formatter on fresh, filled and full strings", \
+        sprintf_cases(frng, tier != "quick")
     orng = random.Random("%s-%s-overhang" % (prop, seed))
     yield "search strings sticking out behind the end of a full or nearly full content (over-reads of the object)", \
         overhang_cases(orng, tier != "quick")
